@@ -9,6 +9,7 @@
 (c) the same for terms built with the documented Python constructors / operators of problog.logic.
 """
 import itertools
+import os
 
 from ..core import Prop, shrink, watchdog, WatchdogTimeout
 from ..gen import c17gen as G
@@ -118,8 +119,8 @@ def unsupported_reason(clauses):
             return None
         if not isinstance(t, Term):
             return None
-        if head_ok and type(t) is Term and str(t.functor).startswith("[]_"):
-            return "head-not-callable"  # \+[] :- ... (negated head literal rewriting on the empty list)
+        if head_ok and type(t) is Term and (str(t.functor).startswith("[]_") or str(t.functor).startswith("._")):
+            return "head-not-callable"  # \+[] :- ..., \+[a] :- ... (negated head literal rewriting on a list)
         if t.probability is not None:
             if not head_ok or type(t) is not Term:
                 return "nested-probability"
@@ -256,24 +257,32 @@ def shrink_memo(case, candidates, fails, keyf, memo, limit=20000):
         memo[k] = res
     return res
 
-_SIMPLE = {"lower": "a", "upper": "X", "digit": "1"}
+# characters from simplest to most complex; a string shrinks towards fewer and "simpler" characters
+_CHAR_ORDER = "a1X_ .:-()[],;|+=\\<>*/^~@#&!?%$'\"`{}"
+_RANK = {c: i for i, c in enumerate(_CHAR_ORDER)}
+
+
+def _rank(c):
+    return _RANK.get(c, len(_CHAR_ORDER) + ord(c) if len(c) == 1 else 0)
 
 
 def string_candidates(s):
-    """strictly simpler strings, fixed order: delete a block (long blocks first), then canonicalise characters"""
+    """strictly simpler strings in a fixed order: (1) delete a block (long blocks first), (2) replace a block of 2-5
+    characters by 'a', (3) replace one character by a simpler one (order _CHAR_ORDER).  Every candidate is shorter
+    or has the same length and a lexicographically smaller rank vector, so shrinking terminates."""
     n = len(s)
     for ln in range(n - 1, 0, -1):
         for i in range(0, n - ln + 1):
             yield s[:i] + s[i + ln:]
+    for ln in range(5, 1, -1):
+        for i in range(0, n - ln + 1):
+            yield s[:i] + "a" + s[i + ln:]
     for i, ch in enumerate(s):
-        if ch.islower() and ch != "a":
-            yield s[:i] + "a" + s[i + 1:]
-        elif ch.isupper() and ch != "X":
-            yield s[:i] + "X" + s[i + 1:]
-        elif ch.isdigit() and ch != "1":
-            yield s[:i] + "1" + s[i + 1:]
-        elif ch in "\t\n" or (ch == "_" and False):
-            yield s[:i] + " " + s[i + 1:]
+        r = _rank(ch)
+        for c in _CHAR_ORDER:
+            if _RANK[c] >= r:
+                break
+            yield s[:i] + c + s[i + 1:]
 
 
 def shrink_string(s, api, symptom):
@@ -281,7 +290,7 @@ def shrink_string(s, api, symptom):
         out = parse_outcome(c, api, 2)
         return out[0] == "crash" and crash_symptom(out) == symptom
 
-    return shrink(s, string_candidates, fails, limit=3000)
+    return shrink(s, string_candidates, fails, limit=20000)
 
 
 def expr_candidates(case):
@@ -400,34 +409,17 @@ def ctor_bodies(depth, lits):
 
 
 def ctor_terms(tier):
-    """all statements; simplest first"""
+    """generator of all constructed statements; simplest first, no duplicates by construction"""
     lits = ctor_literals()
     small = [["atom", "p"], ["cmp", "q", [["var", "X"]]], ["cmp", "r", [["int", -1], ["float", 2.5]]]]
     probs = [["float", 0.5], ["var", "P"], ["int", 1]]
-    heads = []
     for l in lits:
-        heads.append(l)
+        yield l
     for p in probs:
         for l in small:
-            heads.append(["prob", p, l])
-    bodies = ctor_bodies(1, lits[:8]) + [b for b in ctor_bodies(2 if tier == "quick" else 3, small[:2] if tier == "quick"
-                                                                 else small) if b[0] != "atom" and b[0] != "cmp"]
-    seen = set()
-    out = []
-
-    def add(t):
-        key = repr(t)
-        if key not in seen:
-            seen.add(key)
-            out.append(t)
-
-    for h in heads:
-        add(h)
+            yield ["prob", p, l]
     hs = [["atom", "p"], ["cmp", "q", [["var", "X"]]], ["prob", ["float", 0.5], ["atom", "p"]],
           ["prob", ["var", "P"], ["cmp", "q", [["var", "X"]]]]]
-    for h in hs:
-        for b in bodies:
-            add(["clause", h, b])
     ad_heads = [[["prob", ["float", 0.5], ["atom", "p"]], ["prob", ["float", 0.25], ["cmp", "q", [["var", "X"]]]]],
                 [["prob", ["float", 0.5], ["atom", "p"]], ["prob", ["float", 0.25], ["atom", "a"]],
                  ["prob", ["var", "P"], ["cmp", "q", [["int", -1]]]]]]
@@ -435,10 +427,32 @@ def ctor_terms(tier):
         cur = hh[-1]
         for h in reversed(hh[:-1]):
             cur = ["or", h, cur]
-        add(cur)
-        for b in bodies[:400]:
-            add(["ad", hh, b])
-    return out
+        yield cur
+
+    def bodies():
+        # depth <= 1 over 8 literals, then deeper nestings over 2 literals
+        for b in ctor_bodies(1, lits[:8]):
+            yield b
+        base = small[:2]
+        sub = ctor_bodies(1 if tier == "quick" else 2, base)
+        for x in sub:
+            if x not in base:
+                yield ["not", x]
+        for x in sub:
+            for y in sub:
+                if x in base and y in base:
+                    continue
+                yield ["and", x, y]
+                yield ["or", x, y]
+
+    n = 0
+    for b in bodies():
+        for h in hs:
+            yield ["clause", h, b]
+        if n < 400:
+            for hh in ad_heads:
+                yield ["ad", hh, b]
+        n += 1
 
 
 def ctor_roundtrip(d):
@@ -537,6 +551,7 @@ def shrink_ctor(d, symptom, memo=None):
 TOK_MAX = {"quick": 5, "thorough": 6}
 CHR_MAX = {"quick": 3, "thorough": 4}
 SUB_MAX = {"quick": 4, "thorough": 5}
+AGG_MAX = {"quick": 6, "thorough": 7}
 SHARD_STRINGS = {"quick": 100000, "thorough": 1000000}  # largest number of strings in one shard
 
 
@@ -550,22 +565,34 @@ class C17(Prop):
                  "structural walker; (c) every term built with the documented constructors of problog.logic")
     rule = ("(a) all strings of <= 5 (quick) / 6 (thorough) tokens over the 26-token alphabet, all strings of <= 3 / 4 "
             "printable ASCII characters, all strings of <= 4 / 5 characters over a 38-character sub-alphabet (one "
-            "representative per tokenizer action); a string is non-trivial when it parses to >= 1 clause.  "
-            "(b) depth 1: 57 infix + 9 prefix operators x 18 operand kinds (x both source forms) x 10 contexts; "
-            "depth 2 (quick: prefix-over-infix and infix-over-(infix|prefix) pairs on fixed leaves; thorough: all "
+            "representative per tokenizer action), all strings of <= 6 / 7 tokens over the 9 aggregate-syntax tokens "
+            "{a,X,<,>,.,(,),\",\",:-}; a string is non-trivial when it parses to >= 1 clause.  "
+            "(b) depth 1: 57 infix + 9 prefix operators x 18 operand kinds (x both source forms) x 13 contexts; "
+            "depth 2 (quick: every prefix operator over every depth-1 expression of 6 operand kinds, every infix "
+            "operator over every pair of (infix | prefix) sub-expressions on fixed leaves; thorough: additionally all "
             "one-sided nestings with 6 inner x 18 outer operand kinds, 3 contexts); non-trivial when the source "
             "parses and the shape is judged.  (c) literals x connectives &,|,~ (depth 2 / 3) x clause / AD forms.")
     assumptions = [
         "round trip judged on what the parser built from the source (fixpoint parse(print(parse(s))) == parse(s))",
-        "unjudged: parsed terms containing None (empty parentheses) and probability annotations outside a plain "
-        "clause head / fact / AD head",
+        "unjudged (counted): parsed terms containing None (empty parentheses), probability annotations anywhere but "
+        "on a plain callable clause head / fact / AD head, heads that are lists (0.5::[a], \\+[a] :- b)",
         "not/\\+ are the same negation for the walker; location, op_priority, op_spec are not part of a term",
+        "a parser defect that is the same in both parses (e.g. a dropped list tail) is invisible to the fixpoint",
         "hangs are detected by a 30 s watchdog per batch of 1000 strings, then per string (5 s)",
+        "the string sets of the three families overlap slightly; states counts strings per family",
     ]
-    budget = {"quick": 150, "thorough": 1800}
+    budget = {"quick": 240, "thorough": 2400}
 
     # -- shards ------------------------------------------------------------------------------------
     def shards(self, tier):
+        res = self._all_shards(tier)
+        parts = os.environ.get("VERIF_C17_PARTS")  # debugging aid: run only some shard families (reported as a cap)
+        if parts:
+            keep = set(parts.split(","))
+            res = [["note", parts]] + [s for s in res if s[0] in keep]
+        return res
+
+    def _all_shards(self, tier):
         res = []
         # round trip first: these shards are the slowest
         n1 = len(G.BINOPS) + len(G.UNOPS)
@@ -583,7 +610,7 @@ class C17(Prop):
         for i in range(16):
             res.append(["ctor", i, 16])
         for fam, alphabet, kmax in (("tok", G.TOKENS, TOK_MAX[tier]), ("chr", G.PRINTABLE, CHR_MAX[tier]),
-                                    ("sub", G.SUBCHARS, SUB_MAX[tier])):
+                                    ("sub", G.SUBCHARS, SUB_MAX[tier]), ("agg", G.AGG_TOKENS, AGG_MAX[tier])):
             n = len(alphabet)
             for k in range(0, kmax + 1):
                 total = n ** k
@@ -597,7 +624,7 @@ class C17(Prop):
     # -- (a) ---------------------------------------------------------------------------------------
     def _strings(self, shard):
         fam, k, pre, _ = shard
-        alphabet = {"tok": G.TOKENS, "chr": G.PRINTABLE, "sub": G.SUBCHARS}[fam]
+        alphabet = {"tok": G.TOKENS, "chr": G.PRINTABLE, "sub": G.SUBCHARS, "agg": G.AGG_TOKENS}[fam]
         return G.strings_over(alphabet, k, tuple(alphabet[i] for i in pre))
 
     def _run_strings(self, shard, acc):
@@ -649,8 +676,18 @@ class C17(Prop):
                             self._count_string(s, api, out, acc, known)
                     acc.counters["batches_interrupted_by_watchdog"] += 1
                     i += 1
-            # crashes are shrunk outside the batch watchdog (the shrinker uses its own per-case watchdog)
+            # crashes are shrunk outside the batch watchdog (the shrinker uses its own per-case watchdog); a string
+            # that leaks the same exception from the same site through both APIs is reported once
+            seen = set()
             for s, api, out in crashes:
+                if (s, out[1], out[2]) in seen:
+                    acc.evaluations += 1
+                    acc.traces += 1
+                    acc.transitions += 1
+                    acc.outcomes[crash_symptom(out)] += 1
+                    acc.counters["crash_same_site_both_apis"] += 1
+                    continue
+                seen.add((s, out[1], out[2]))
                 self._count_string(s, api, out, acc, known)
             acc.states += len(batch)
 
@@ -794,7 +831,7 @@ class C17(Prop):
     # -- driver ------------------------------------------------------------------------------------
     def run_shard(self, shard, tier, acc):
         kind = shard[0]
-        if kind in ("tok", "chr", "sub"):
+        if kind in ("tok", "chr", "sub", "agg"):
             self._run_strings(shard, acc)
         elif kind == "rt1":
             self._run_rt(self._rt1_cases(shard[1], shard[2], shard[3]), acc, shard)
@@ -802,6 +839,8 @@ class C17(Prop):
             self._run_rt(self._rt2_cases(shard[1], shard[2]), acc, shard)
         elif kind == "ctor":
             self._run_ctor(shard[1], shard[2], tier, acc)
+        elif kind == "note":
+            acc.cap("partial run: only shard families %s (VERIF_C17_PARTS)" % shard[1])
         else:
             raise ValueError(shard)
 
